@@ -384,6 +384,29 @@ class Folder:
             if isinstance(r, tuple) and r[0] == "ext" and r[1] == "re" and args and isinstance(args[0], str):
                 fl = args[1] if len(args) > 1 and isinstance(args[1], int) else kwargs.get("flags", 0)
                 return CompiledPattern(args[0], fl if isinstance(fl, int) else 0)
+        # itertools.chain(a, b, ...) / chain.from_iterable(xs): concatenation of known sequences (a list stands for it)
+        fq = None
+        if isinstance(n.func, ast.Name) and n.func.id not in env:
+            r = self.prog.resolve_name(mod, n.func.id)
+            if isinstance(r, tuple) and r[0] == "ext":
+                fq = r[1]
+        elif isinstance(n.func, ast.Attribute):
+            base = n.func.value
+            if isinstance(base, ast.Name) and base.id not in env:
+                r = self.prog.resolve_name(mod, base.id)
+                if isinstance(r, tuple) and r[0] == "ext":
+                    fq = f"{r[1]}.{n.func.attr}"
+            elif isinstance(base, ast.Attribute) and isinstance(base.value, ast.Name) and base.value.id not in env:
+                r = self.prog.resolve_name(mod, base.value.id)
+                if isinstance(r, tuple) and r[0] == "ext":
+                    fq = f"{r[1]}.{base.attr}.{n.func.attr}"
+        if fq in ("itertools.chain", "itertools.chain.from_iterable") and not kwargs:
+            seqs = args if fq == "itertools.chain" else (list(args[0]) if len(args) == 1 else None)
+            if seqs is not None and all(isinstance(x, (list, tuple, dict, set, frozenset, str, range)) for x in seqs):
+                out: List[Any] = []
+                for x in seqs:
+                    out.extend(list(x))
+                return out
         callee = self._package_function(n.func, mod, env)
         if callee is not None:
             return self._apply(callee, args, kwargs)
